@@ -207,6 +207,15 @@ def run_seq(case):
                                            f"configuration or state directory created in {d}/ instead of next to the workflow file"))
             if viols:
                 break
+            if not viols and any(op[0] == "set" and not op[2].isascii() for op in case["ops"]):
+                # a later invocation on a machine with another locale (cluster node, cron) still reads the file
+                labels.add("other-locale-invocation")
+                rs = proj.gwf_sub(["config", "get", "--", "verbose"],
+                                  extra_env={"LC_ALL": "C", "LANG": "C", "PYTHONUTF8": "0", "PYTHONCOERCECLOCALE": "0"})
+                exp = shown(model["verbose"][0]) if "verbose" in model else "info"
+                if rs.code != 0 or (len(model.get("verbose", [0])) == 1 and rs.out.strip() != exp):
+                    viols.append(Violation({"kind": "config-unreadable-under-other-locale"},
+                                           f"after storing a non-ASCII value, `gwf config get verbose` under LC_ALL=C: {rs.brief()}"))
     pref = any(a != b and (a.startswith(b) or b.startswith(a)) for a in set(touched) for b in set(touched))
     return CaseResult(viols, pref and unset_seen, sorted(labels | {"seq"}))
 
@@ -253,6 +262,17 @@ def run_prec(case):
             viols.append(Violation({"kind": "backend-precedence", "source": src},
                                    f"backend {want_backend} selected by {src} (flag {case['backend_flag']}, config "
                                    f"{case['backend_conf']}) but commands of {sorted(used)} were run"))
+        n0 = len(proj.sim.log)
+        rcancel = proj.gwf(flags + ["cancel", "-f"], extra_env=env)
+        used_c = _which_backend(proj.sim.log[n0:]) | {b_ for b_, c_ in (("slurm", "scancel"), ("sge", "qdel"), ("lsf", "bkill"))
+                                                     if any(e["cmd"] == c_ for e in proj.sim.log[n0:])}
+        if rcancel.crashed:
+            viols.append(Violation({"kind": "cancel-crashed"}, rcancel.brief()))
+        elif want_backend and used_c != {want_backend}:
+            src = "flag" if case["backend_flag"] else "config"
+            viols.append(Violation({"kind": "backend-precedence", "source": src, "cmd": "cancel"},
+                                   f"`gwf cancel`: backend {want_backend} selected by {src} (flag {case['backend_flag']}, config "
+                                   f"{case['backend_conf']}) but commands of {sorted(used_c)} were run"))
         r = proj.gwf(flags + ["run", "--dry-run"], extra_env=env)
         level = case["verbose_flag"] or case["verbose_conf"] or "info"
         has_info = "Would submit" in r.err
